@@ -199,6 +199,7 @@ class CopyFamily(Family):
         res = Res()
         with world.override(world.CFG_G):
             self._run(prog, res)
+        self._unrolled_copies(prog, res)
         res.transitions = 3 * count_events(prog) + 3 + 2 * N_MUT
         res.validated = 3
         res.trivial = len(prog) < 2
@@ -290,6 +291,40 @@ class CopyFamily(Family):
                     prog, list(d_missing.items())[:2], list(d_extra.items())[:2]))
         second = [o for o in allops if id(o) not in first_ids]
         res.outcome = (tuple(orig), len(second))
+
+
+def has_block(prog):
+    return any(e[0] == 'sub' for e in prog)
+
+
+def _unrolled_copies(self, prog, res):
+    """Route 4: the modifier-applied circuit (its copies are chained by multi-reference links) is copied by nesting and by
+    circuit_structure.copy(); original and copies must report the same rows under the configuration in force at copy
+    time AND under every other configuration afterwards (a copy that froze a time-dependent choice diverges later)."""
+    if not has_block(prog):
+        return
+    world.clear_memo()
+    with world.override(world.CFG_G):
+        c = build(prog).circ.apply_modifiers()
+        top = DeclarativeCircuit()
+        top.add(c)
+        s2 = c.circuit_structure.copy()
+    for cfgname in ('G', 'H', 'D'):
+        with world.override(world.cfg_by_name(cfgname)):
+            world.clear_memo()
+            orig = circ_rows(c)
+            nested = normalise_outer(nested_rows(top))
+            cp = struct_rows(s2)
+            if nested != orig:
+                res.fail('C05-nest-unrolled', 'program %r: nested copy of the unrolled circuit differs under configuration %s: %s' % (prog, cfgname, first_diff(orig, nested)))
+                break
+            if cp != orig:
+                res.fail('C05-structure-copy-unrolled', 'program %r: structure copy of the unrolled circuit differs under configuration %s: %s' % (prog, cfgname, first_diff(orig, cp)))
+                break
+    world.clear_memo()
+
+
+CopyFamily._unrolled_copies = _unrolled_copies
 
 
 def first_diff(a, b):
